@@ -42,6 +42,8 @@ struct StreamGen {
     /// AIGER: item counts per section [inputs, latches, outputs, bad, constraints, justice, fairness, gates, symbols]
     sect: [u64; 9],
     phase: usize,
+    /// BTOR2 line mix: 0 mixed, 1 symbol+comment on every line, 2 comment lines + symbol-only nodes
+    btor_profile: u8,
     max_item: Rc<Cell<u64>>,
 }
 
@@ -60,6 +62,21 @@ impl StreamGen {
             }
             Fmt::Gcnf => {
                 let _ = writeln!(out, "{{{}}} {} -{} 0", k % 5, 1 + k % 97, 1 + (k * 7) % 1013);
+            }
+            Fmt::Btor2 if self.btor_profile == 1 => {
+                // every node line has a symbol AND a comment
+                let _ = match k % 3 {
+                    0 => writeln!(out, "{} input 1 sym{} ; c{}", k + 2, k, k),
+                    1 => writeln!(out, "{} constd 1 -{} d{} ;x", k + 2, k % 1000, k),
+                    _ => writeln!(out, "{} justice 2 {} {} j{} ; two", k + 2, k + 1, k + 1, k),
+                };
+            }
+            Fmt::Btor2 if self.btor_profile == 2 => {
+                // comment-only lines between nodes with symbols only
+                let _ = match k % 2 {
+                    0 => writeln!(out, "; comment {}", k),
+                    _ => writeln!(out, "{} consth 1 ff{} name{}", k + 2, k % 10, k),
+                };
             }
             Fmt::Btor2 => {
                 let _ = match k % 4 {
@@ -445,6 +462,7 @@ impl Monitor for C10 {
             inputs,
             sect,
             phase: 0,
+            btor_profile: ((idx / 6) % 3) as u8,
             max_item: max_item.clone(),
         };
         let calls = Rc::new(Cell::new(0u64));
@@ -471,6 +489,9 @@ impl Monitor for C10 {
         rep.count("bytes_streamed", target);
         rep.count("read_calls", calls.get());
         rep.inc(&format!("format:{:?}", fmt));
+        if fmt == Fmt::Btor2 {
+            rep.inc(&format!("btor_profile:{}", (idx / 6) % 3));
+        }
         if matches!(fmt, Fmt::Aag | Fmt::Aig) {
             rep.inc(&format!(
                 "aiger_long_section:{}",
